@@ -329,6 +329,8 @@ def fe_expr(e, f, nforms, style):
         return "(%s %s %s)" % (x, {"add": "+", "sub": "-", "mul": "*", "lt": "<"}[op], y)
     if op == "if":
         return "if(%s, %s, %s)" % (fe_expr(e["c"], f, nforms, style), fe_expr(e["x"], f, nforms, style), fe_expr(e["y"], f, nforms, style))
+    if op == "fn2":
+        return "%s(%s, %s)" % ("h2" if e["kind"] == "h2" else "pymath.fsum", fe_expr(e["x"], f, nforms, style), fe_expr(e["y"], f, nforms, style))
     if op == "call":
         tgt = f + e["g"] if f + e["g"] <= nforms else ((f + e["g"] - 1) % nforms) + 1      # the cyclic program wraps around
         return "f%d(r, %s)" % (tgt, fe_expr(e["x"], f, nforms, style))
@@ -339,6 +341,8 @@ def fe_render(case, style):
     prog = case["prog"]
     n = len(prog)
     forms = ["f%d(r, a) = %s" % (i + 1, fe_expr(prog[i], i + 1, n, style % 3)) for i in range(n)]
+    if "\"h2\"" in json.dumps(prog):
+        forms.append("h2(x, y) = x*100 + y")
     if style % 2:
         forms.reverse()           # a form may be defined after the forms that call it
     pairs = []
@@ -365,6 +369,8 @@ def _fe_one(idx):
     out = dict(idx=idx, bad=[], n=0)
     try:
         style = idx % 6
+        if case.get("cyclic"):
+            style = 0 if style % 2 == 0 else 3      # operators as written (which sums are function calls is part of the program)
         text, keys = fe_render(case, style)
         try:
             tab = Configuration().read(io.StringIO(text))
@@ -383,6 +389,11 @@ def _fe_one(idx):
                     out["bad"].append(("evaluation-raises", "f%d %d at r=%d: %s: %s" % (v["f"], v["a"], v["r"], type(e).__name__, str(e)[:200]), text))
                     return out
                 out["n"] += 1
+                if abs(got - v["v"]) > 1e-9 * (1 + abs(v["v"])) and case.get("h2") and abs(got - v.get("impl", v["v"])) <= 1e-9 * (1 + abs(got)):
+                    # the deviation the specification's model of the implementation (CallBuffers) predicts: finding F48
+                    out.setdefault("known", []).append(("formula-value", "potential 'f%d %d' at r=%d gives %r, as the call-node argument buffers of FormEval.tla predict; the formulas denote %d" % (
+                        v["f"], v["a"], v["r"], got, v["v"]), text))
+                    continue
                 if abs(got - v["v"]) > 1e-9 * (1 + abs(v["v"])):
                     out["bad"].append(("formula-value", "potential 'f%d %d' at r=%d gives %r; binding parameters positionally the formulas denote %d (evaluation #%d of this tabulation)" % (
                         v["f"], v["a"], v["r"], got, v["v"], out["n"]), text))
@@ -441,6 +452,12 @@ def run_formeval(run, tier):
         cyc = tlc.read_ndjson(os.path.join(r2.outdir, "cases.ndjson"))
     finally:
         tlc.cleanup(r2)
+    # recursion through the argument of another call: the statement is violated by the model of the tree as it is (F48) and
+    # holds when call arguments belong to the activation
+    for cfgname, want in (("FormEval_cyclic_f48.cfg", "ImplIsSubstitution"), ("FormEval_cyclic_design.cfg", None)):
+        r4 = tlc.run("FormEval", cfgname, timeout=600)
+        if r4.violated != want:
+            run.machinery("%s: expected %r, TLC says %r" % (cfgname, want, r4.violated))
     r3 = tlc.run("FormEval", "FormEval_cyclic_unrepaired.cfg", timeout=600)
     run.notes["unrepaired_model_violates"] = r3.violated
     if r3.violated != "ImplIsSubstitution":
@@ -460,12 +477,19 @@ def run_formeval(run, tier):
         for clause, msg, text in r["bad"][:1]:
             run.violation(dict(engine="algebra", clause=clause, cyclic=False), "[%s] %s" % (clause, msg), dict(case=case, ini=text))
     # the cyclic program of the specification on the real code (known finding F14 when it deviates)
+    for c in cyc:
+        c["cyclic"] = True
     _FCASES = cyc
     for i in range(len(cyc)):
         r = _fe_one(i)
         run.evaluations += r["n"]
         for clause, msg, text in r["bad"][:1]:
             run.violation(dict(engine="algebra", clause=clause, cyclic=True), "[%s] mutually recursive forms: %s" % (clause, msg), dict(case=cyc[i], ini=text))
+        for clause, msg, text in r.get("known", [])[:1]:
+            run.violation(dict(engine="algebra", clause=clause, cyclic=True, recursion_through_call_argument=True, as_modelled=True),
+                          "[%s] mutually recursive forms: %s" % (clause, msg), dict(case=cyc[i], ini=text))
+        if cyc[i].get("h2") and not r.get("known") and not r["bad"]:
+            run.notes["F48_no_longer_shows"] = True
 
 
 def parse_printed(stdout):
